@@ -156,9 +156,15 @@ impl Encoder<DatagramPacket> for Socks5UdpCodec {
     type Error = anyhow::Error;
 
     fn encode(&mut self, item: DatagramPacket, dst: &mut BytesMut) -> Result<(), Self::Error> {
+        let start = dst.len();
         dst.extend_from_slice(&[0, 0, 0]); // Fragment
         address::encode(&item.1, dst);
         dst.extend_from_slice(&item.0);
+        // a datagram the socket cannot send would stay in the framed sink and fail every later send as well
+        if dst.len() - start > 65507 {
+            dst.truncate(start);
+            bail!("datagram of {} bytes is too large", item.0.len());
+        }
         Ok(())
     }
 }
